@@ -174,6 +174,14 @@ def popup_jobs(ck, thorough):
         for seq in itertools.product(base if ln < 3 else base[:1] + base[3:4] + base[5:13] + base[19:20] + base[21:22], repeat=ln):
             for ex in ((0, 1, -1) if ln < 3 else (0, 1)):
                 jobs.append({"host": hosts[0], "ex": ex, "cmds": list(seq) + [(b"NOOP", b"")]})
+    # every sequence of three (and four) authentication steps, refused ones included: what a refused command leaves behind
+    # must not show in what the checker is given later
+    auth = [(b"USER", users[0]), (b"USER", users[1]), (b"USER", b""), (b"PASS", pws[0]), (b"PASS", b""), (b"APOP", users[0]), (b"NOOP", b""), (b"XYZZY", b"")]
+    for seq in itertools.product(auth, repeat=3):
+        for ex in (0, 1):
+            jobs.append({"host": hosts[0], "ex": ex, "cmds": list(seq) + [(b"NOOP", b"")]})
+    for seq in itertools.product([auth[0], auth[2], auth[3], auth[4]], repeat=4):
+        jobs.append({"host": hosts[1], "ex": 0, "cmds": list(seq) + [(b"NOOP", b"")]})
     for u in users:
         for pw in pws:
             for ex in (0, 1, 111, -1):
